@@ -979,43 +979,66 @@ func checkSkipRetry(c SkipRetryCase, cv *cov) (v *evid.Violation) {
 			sd.Release()
 		}
 		// a decoder that failed is released to its pool; the next user of the pooled object starts clean
-		for k := 0; k < 3; k++ {
+		for k := 0; k < 6; k++ {
 			p := c.Plan
 			p.ErrAt = len(stream)
-			switch k {
+			// k = 3..5: the previous owner of the pooled object did not fail, it used the exported SkipN
+			// (the callback of the generic skipper) directly and so left a cursor behind when it released
+			direct := func(d interface {
+				SkipN(int) ([]byte, error)
+			}) {
+				n := 3
+				if n > len(stream) {
+					n = len(stream)
+				}
+				_, _ = d.SkipN(n)
+			}
+			switch k % 3 {
 			case 0:
 				d := thrift.NewBytesSkipDecoder(stream)
-				_, _ = d.Next(c.BadT)
+				if k >= 3 {
+					direct(d)
+				} else {
+					_, _ = d.Next(c.BadT)
+				}
 				d.Release()
 				d = thrift.NewBytesSkipDecoder(stream)
 				out, err := d.Next(c.T)
 				d.Release()
 				if err != nil || !bytes.Equal(out, enc) {
-					v = evid.Failf("BytesSkipDecoder taken from the pool after another use had failed: Next(type %d) returned (%d bytes, %v), want the %d-byte value", c.T, len(out), err, len(enc))
+					v = evid.Failf("BytesSkipDecoder taken from the pool after another use had failed (or, k=%d >= 3, had called SkipN directly): Next(type %d) returned (%d bytes, %v), want the %d-byte value", k, c.T, len(out), err, len(enc))
 					return
 				}
 			case 1:
 				rd := bufiox.NewDefaultReader(faultio.NewScriptReader(stream, p))
 				d := thrift.NewSkipDecoder(rd)
-				_, _ = d.Next(c.BadT)
+				if k >= 3 {
+					direct(d)
+				} else {
+					_, _ = d.Next(c.BadT)
+				}
 				d.Release()
 				rd2 := bufiox.NewDefaultReader(faultio.NewScriptReader(stream, p))
 				d = thrift.NewSkipDecoder(rd2)
 				out, err := d.Next(c.T)
 				if err != nil || !bytes.Equal(out, enc) || rd2.ReadLen() != len(enc) {
-					v = evid.Failf("SkipDecoder taken from the pool after another use had failed: Next(type %d) returned (%d bytes, %v), ReadLen %d, want the %d-byte value", c.T, len(out), err, rd2.ReadLen(), len(enc))
+					v = evid.Failf("SkipDecoder taken from the pool after another use had failed (or, k=%d >= 3, had called SkipN directly): Next(type %d) returned (%d bytes, %v), ReadLen %d, want the %d-byte value", k, c.T, len(out), err, rd2.ReadLen(), len(enc))
 					return
 				}
 				d.Release()
 			default:
 				d := thrift.NewReaderSkipDecoder(faultio.NewScriptReader(stream, p))
-				_, _ = d.Next(c.BadT)
+				if k >= 3 {
+					direct(d)
+				} else {
+					_, _ = d.Next(c.BadT)
+				}
 				d.Release()
 				sr := faultio.NewScriptReader(stream, p)
 				d = thrift.NewReaderSkipDecoder(sr)
 				out, err := d.Next(c.T)
 				if err != nil || !bytes.Equal(out, enc) || sr.Pos != len(enc) {
-					v = evid.Failf("ReaderSkipDecoder taken from the pool after another use had failed: Next(type %d) returned (%d bytes, %v), source at %d, want the %d-byte value", c.T, len(out), err, sr.Pos, len(enc))
+					v = evid.Failf("ReaderSkipDecoder taken from the pool after another use had failed (or, k=%d >= 3, had called SkipN directly): Next(type %d) returned (%d bytes, %v), source at %d, want the %d-byte value", k, c.T, len(out), err, sr.Pos, len(enc))
 					return
 				}
 				d.Release()
